@@ -182,7 +182,7 @@ PROPERTIES = {
         assumptions=COMMON_ASSUMPTIONS + [SHAPE_ASSUMPTION],
     ),
     "C03": dict(
-        rules=[r_raise_c03, S2.rule_deleg, S2.rule_lockstep, r_pure_c03],
+        rules=[r_raise_c03, R.rule_kind, S2.rule_deleg, S2.rule_lockstep, r_pure_c03, SH.rule_tt_c01, SH.rule_once_c01],
         explanation=(
             "Clauses decided: (1) 'a part that does not apply to a node matches nothing rather than raising' - every operation reachable from DataPath.get_data / Data.get "
             "on a document-derived value, and every raise depending on one (container-kind checks of the parts, Data.__init__, key/index refusal), is covered by the per-node handler "
@@ -192,7 +192,7 @@ PROPERTIES = {
         assumptions=COMMON_ASSUMPTIONS + [SHAPE_ASSUMPTION],
     ),
     "C04": dict(
-        rules=[S2.rule_lockstep, S2.rule_enum, S2.rule_writers],
+        rules=[S2.rule_lockstep, S2.rule_enum, S2.rule_writers, S2.rule_deleg],
         explanation=(
             "Clauses decided: (1) value frontier and path frontier advance in lock-step: parent paths are looked up by the node's position in the full previous frontier, both frontiers are "
             "extended from the same filtered object or skipped together, only length-preserving steps touch them before they are zipped; (2) each datum / multiplicity modifier has a method, "
@@ -202,7 +202,7 @@ PROPERTIES = {
         assumptions=[SHAPE_ASSUMPTION, "the filtered object's `.data` and `.keys` are the partition views decided under C01 (R-TT/C01)"],
     ),
     "C05": dict(
-        rules=[S2.rule_collect, S2.rule_record, S2.rule_flag, S2.rule_lockstep, S2.rule_thread],
+        rules=[S2.rule_collect, S2.rule_record, S2.rule_flag, S2.rule_lockstep, S2.rule_thread, S2.rule_reasons, SH.rule_tt_c01, SH.rule_once_c01],
         explanation=(
             "Clauses decided: (1) collection discipline of RuleTest._test - selection with paths on the test's own document, path-exists test, filter under that guard, verdict = all(result), "
             "every failing item and only failing items recorded, failures published after collection, count = len; Rule.test returns a fresh RuleTest on the (cast) copy; "
@@ -213,7 +213,7 @@ PROPERTIES = {
         assumptions=[SHAPE_ASSUMPTION],
     ),
     "C06": dict(
-        rules=[S2.rule_fold, S2.rule_sort, S2.rule_rettype],
+        rules=[S2.rule_fold, S2.rule_sort, S2.rule_rettype, R.rule_report_raises],
         explanation=(
             "Clauses decided: (1) is_valid / num_failures / num_rules_tested are order-insensitive reducers (all / sum) of the per-rule attribute over all rule tests; rule_tests tests every rule once "
             "on the same document and copy; validate builds a fresh result each call; (2) every binding of Schema.rules is sorted(<all rules>, key=len(path)) - stable, ascending; "
@@ -255,7 +255,7 @@ PROPERTIES = {
         assumptions=COMMON_ASSUMPTIONS + [SHAPE_ASSUMPTION],
     ),
     "C11": dict(
-        rules=[SG.rule_sig, SG.rule_ladder, SG.rule_tables_c11, SG.rule_conv, SH.rule_tt_c02],
+        rules=[SG.rule_sig, SG.rule_ladder, SG.rule_tables_c11, SG.rule_conv, SH.rule_tt_c02, S2.rule_names, SG.rule_tokens],
         explanation=(
             "Clauses decided: (1) every constructor stores its arguments the way the serialiser reads them (keyword / *args / **kwargs); (2) writer and reader "
             "ladders, evaluated for all constructor signatures, pick branches with compatible JSON shapes; (3) type-name tables are mutual inverses; "
@@ -265,7 +265,7 @@ PROPERTIES = {
         assumptions=COMMON_ASSUMPTIONS + [SHAPE_ASSUMPTION],
     ),
     "C12": dict(
-        rules=[S2.rule_guarded, r_pure_ser("R-PURE/C12", ["to_part_specs", "simplify"], ["path"])],
+        rules=[S2.rule_guarded, r_pure_ser("R-PURE/C12", ["to_part_specs", "simplify"], ["path"]), S2.rule_names, SH.rule_tt_c02],
         explanation=(
             "Clause decided: a primitive or bare-type part spec is emitted only under guards that establish its meaning, otherwise serialisation raises - simplify() emits the 'value' argument "
             "only for a single Key/Index equal_to condition of the right part class (full guard sets checked), to_part_specs never reads a condition's argument directly, emits a bare type only "
@@ -275,7 +275,7 @@ PROPERTIES = {
         assumptions=[SHAPE_ASSUMPTION] + COMMON_ASSUMPTIONS[:2],
     ),
     "C13": dict(
-        rules=[S2.rule_fields, SG.rule_castinv, r_pure_ser("R-PURE/C13", ["rule_to_json", "schema_to_json"], ["rule", "schema"])],
+        rules=[S2.rule_fields, SG.rule_castinv, r_pure_ser("R-PURE/C13", ["rule_to_json", "schema_to_json"], ["rule", "schema"]), S2.rule_sort, S2.rule_eq_const_fields],
         explanation=(
             "Clauses decided: (1) Rule.to_json_like emits only JSON-typed fields (condition / path through their own serialisers, cast as type names), the keys it writes are the keys from_spec reads, "
             "schemas map their rule list element-wise; (2) by finite evaluation over CAST_LOOKUP, what the writer emits for each cast parses back to the same cast; "
@@ -284,7 +284,7 @@ PROPERTIES = {
         assumptions=[SHAPE_ASSUMPTION] + COMMON_ASSUMPTIONS[:2],
     ),
     "C14": dict(
-        rules=[E.rule_eqstate, E.rule_eq_pure],
+        rules=[E.rule_eqstate, E.rule_eq_pure, S2.rule_eq_const_fields],
         explanation=(
             "For each of the 18 classes with value equality: the MRO-resolved __eq__ reads every instance field of the class on both operands (following "
             "super().__eq__, _members() and property getters), compares exact types symmetrically before touching the other operand, combination equality "
@@ -304,7 +304,7 @@ PROPERTIES = {
         assumptions=COMMON_ASSUMPTIONS + [SHAPE_ASSUMPTION],
     ),
     "C16": dict(
-        rules=[r_pure_c16],
+        rules=[r_pure_c16, S2.rule_noclosure],
         explanation=(
             "Ownership / mutation analysis of the ten parse entry points (ConditionLike/DataPath/ContainerValue/Rule/Schema from_spec, "
             "from_json_like, from_part_specs, init_rules) with the spec argument as protected origin: every store / mutating call reachable "
@@ -315,7 +315,7 @@ PROPERTIES = {
         assumptions=COMMON_ASSUMPTIONS,
     ),
     "C17": dict(
-        rules=[S2.rule_thread, S2.rule_depth, r_pure_c17],
+        rules=[S2.rule_thread, S2.rule_depth, r_pure_c17, SG.rule_tokens],
         explanation=(
             "Clauses decided: (1) source_data is forwarded unchanged along every call edge from the rule test to argument resolution; (2) the resolver descends into every container kind in which the parser "
             "can place a path object (lists, tuples, mapping values), resolves with get_data(source_data, return_paths=False) and builds new containers; the parser stores whatever DataPath.from_spec returns "
@@ -325,7 +325,7 @@ PROPERTIES = {
         assumptions=COMMON_ASSUMPTIONS + [SHAPE_ASSUMPTION],
     ),
     "C18": dict(
-        rules=[r_pure_c18, r_alias_c18, S2.rule_once_c18, S2.rule_sort, S2.rule_writers],
+        rules=[r_pure_c18, r_alias_c18, S2.rule_once_c18, S2.rule_sort, S2.rule_writers, S2.rule_derived],
         explanation=(
             "Clauses decided: (1) add_schema performs no store into the added schema, the root path or anything reachable from them (mutation analysis) and does not share the added schema's rule list with the receiver; "
             "(2) exactly one re-rooted rule (root_path / rule.path) is appended per rule of the added schema on every path; the result is re-sorted by path length; "
